@@ -184,7 +184,7 @@ func init() {
 		Assumptions: []string{numericModel,
 			"math.Exp/Log/Sin/... are uninterpreted functions: which function is applied to which element is checked, not the function's numerics",
 			"Eq/Ne/Equals: operand pairs are identical or differ by more than 1e-200 (as the property states)"},
-		Outside: "sizes above 3 (above 2 for ranks 4-6); rank 5-6 binary broadcasting only for the listed rank pairs; bit-level float behaviour (signed zero, NaN, overflow)",
+		Outside: "sizes above 3 (above 2 for ranks 4-6); rank 5-6 binary broadcasting only for the listed rank pairs; bit-level float behaviour (signed zero, NaN, overflow, rounding of the arithmetic operations) except what C03_fp decides; operands between 10 and 8192 elements, and above 9216",
 	})
 }
 
